@@ -173,7 +173,12 @@ pub async fn read_response_frame(
     // TODO: Guard from frames that are too large
     let length = buf.get_u32() as usize;
 
-    let mut raw_body = Vec::with_capacity(length).limit(length);
+    // The announced length is not trusted for preallocation: a corrupted or hostile
+    // header would otherwise make us reserve up to 4 GiB before a single body byte
+    // arrives. The buffer grows as the data is actually received.
+    const MAX_PREALLOCATED_BODY_SIZE: usize = 64 * 1024;
+    let mut raw_body =
+        Vec::with_capacity(std::cmp::min(length, MAX_PREALLOCATED_BODY_SIZE)).limit(length);
     while raw_body.has_remaining_mut() {
         let n = reader.read_buf(&mut raw_body).await.map_err(|err| {
             FrameHeaderParseError::BodyChunkIoError(raw_body.remaining_mut(), err)
